@@ -24,7 +24,7 @@ func callee(info *types.Info, call *ast.CallExpr) types.Object {
 // (name may be "T.M" for methods, receiver pointer-ness ignored).
 func isFunc(obj types.Object, pkgPath, name string) bool {
 	fn, ok := obj.(*types.Func)
-	if !ok || fn.Pkg() == nil || fn.Pkg().Path() != pkgPath {
+	if !ok || fn == nil || fn.Pkg() == nil || fn.Pkg().Path() != pkgPath {
 		return false
 	}
 	return shortName(fn) == name
